@@ -56,6 +56,7 @@ def run(facts, rep, tier):
     rep.rule("R19.1", "presentation options are not read by, passed to, or in control of table updates", "P")
     rep.rule("R19.2", "observer coordinates reach only the distance column", "P")
     rep.rule("R19.3", "-U on/off store the same values for DF4/5/11/17", "P")
+    rep.rule("R19.4", "state written by the presentation path (display clock) never feeds table updates or expiry", "P")
     eff = Effects(facts)
     reg = Region(facts, eff)
     cg = call_graph(facts)
@@ -115,6 +116,32 @@ def run(facts, rep, tier):
                                 reg.loc(s)))
             else:
                 rep.oblige(True, ("ctl", callee_name(t), s))
+    # R19.4: counters fields written by code that prints (display_planes -> reset_timestamp) or initialised from -u are
+    # presentation state; each must be display-only (effects.display_only_fields: read only by pure predicates whose result
+    # controls nothing but output) - otherwise -i/-u leak into the table through shared state
+    from ..effects import display_only_fields
+    donly = display_only_fields(facts, eff, "AppCounters")
+    def _pure_presentation(e):
+        return ("stdout",) in e and all(x[0] in ("stdout", "iowrite") or (x[0] == "field" and x[1].split("::")[-1] == "AppCounters") for x in e)
+    printers = [nm for nm in eff.trans if _pure_presentation(eff.of(nm))]
+    pres_written = set()
+    for nm in printers:
+        if "::tests::" in nm:
+            continue
+        for x in eff.of(nm):
+            if x[0] == "field" and x[1].split("::")[-1] == "AppCounters":
+                pres_written.add(x[2])
+    n4 = 0
+    for f in sorted(pres_written):
+        n4 += 1
+        ok = f in donly
+        rep.oblige(ok, ("display-state", f))
+        if not ok:
+            rep.add(Finding("R19.4", "AppCounters.%s written by the display path and read by table code" % f,
+                            "AppCounters.%s is updated when the table is drawn (so it depends on -i Q / -u) and is read outside pure "
+                            "display predicates: presentation options change what happens to the table through this field" % f, None))
+    rep.sample({"rule": "R19.4", "presentation_written": sorted(pres_written), "display_only": sorted(donly)})
+    rep.instances("R19.4", n4, floor=1, what="counters fields written on the display path")
     rep.instances("R19.1", n, floor=20, what="Args field reads + arguments/controlling branches of table-updating calls")
 
     # ---- R19.2
